@@ -521,7 +521,19 @@ func concurrentRun(args []string) {
 				<-start
 
 				for _, ji := range order {
-					res := jobs[ji].run()
+					var res interface{}
+
+					// (the same call made alone - the reference pass above - returned: a panic here is the concurrency's)
+					func() {
+						defer func() {
+							if p := recover(); p != nil {
+								res = fmt.Sprintf("panic: %v", p)
+							}
+						}()
+
+						res = jobs[ji].run()
+					}()
+
 					atomic.AddInt64(&col.nCases, 1)
 
 					if d := digestJSON(res); d != want[ji] {
@@ -603,6 +615,7 @@ func concurrentRun(args []string) {
 
 			go func(w int) {
 				defer wg.Done()
+				defer concGuard(col, "ResolveDocument:same-suffix")
 				<-start
 
 				for it := 0; it < 300*rounds; it++ {
@@ -708,4 +721,13 @@ func concurrentRun(args []string) {
 	col.sum.Extra["goroutines"] = g
 	col.sum.Extra["jobs"] = len(jobs)
 	col.finish()
+}
+
+// concGuard: a panic in a call that returned when it was made alone (every stage makes its calls sequentially first)
+// is the concurrency's; it is reported instead of ending the run.
+func concGuard(col *collector, what string) {
+	if p := recover(); p != nil {
+		col.report(mismatch{Kind: "concurrent-panic", Key: "concurrent-panic:" + what, Case: what,
+			Detail: fmt.Sprintf("a call that returns when made alone panicked when made at the same time as others: %v", p)})
+	}
 }
